@@ -9,6 +9,7 @@
 mod gen;
 mod ops;
 mod proto;
+mod render;
 
 use std::io::{BufRead, BufWriter, Write};
 
